@@ -178,3 +178,24 @@ ADDENDA2 = {
 for _k, _v in ADDENDA2.items():
     if _k in CHECKS and _v not in CHECKS[_k]["text"]:
         CHECKS[_k]["text"] += _v
+
+ADDENDA3 = {
+ "C01": " The hook events of every walk are checked for inclusion in the transition system of CrlRepo.tla (code -> spec).",
+ "C02": " Ungated parallel lookups of a good and a revoked certificate on one instance (OwnAnswerOnly under real parallelism).",
+ "C03": " Table cells with the first CDP fetch left to the background; histories with lists of the other CA.",
+ "C04": " History part: handshakes that change nothing in the model are woven into every walk (all of them around passes); a location that is loaded after the only document fetched there was one that policy rejects is a violation.",
+ "C06": " One whole-decoded element between 64 KiB and 80 KiB (entry extension / CRL extension).",
+ "C07": " PEM armour: every line x eight line-level edits x LF/CRLF/mixed line ends.",
+ "C08": " Overlapping passes: P1 kept inside its transfer, a newer list published, P2 started (the model has one loader per entry).",
+ "C09": " Store level: exhaustive one-bit-per-byte sweep over the table file of a small store.",
+ "C10": " Overlapping instances on one work_dir with opposite crl_cdp_strict.",
+ "C11": " Overlapping passes with the C11 predicate (a superseded list does not come back).",
+ "C12": " work_dir names with pattern / format characters.",
+ "C13": " Shutdown phase: a known CRL, passes that start during Cleanup.",
+ "C14": " nextUpdate past by an hour or by four minutes.",
+ "C15": " Intake table with the ticker's first pass held; refresher worlds in which both instances name one URL and the origin answers conditional requests.",
+ "C17": " Ed25519-signed lists (a list the implementation refuses is no case).",
+}
+for _k, _v in ADDENDA3.items():
+    if _k in CHECKS and _v not in CHECKS[_k]["text"]:
+        CHECKS[_k]["text"] += _v
